@@ -45,7 +45,7 @@ Lemma frozen_clean : forall j h ps v, hclean h ps -> orep h ps j v [] -> v <> HE
 Proof.
   induction j using jv_ind'; intros h ps v Hc Hr Hv; simpl; auto.
   - destruct Hr as [-> _]. congruence.
-  - apply orep_arr in Hr as (a & off & len & cap & cells & fps & -> & Hn & Hl & Hreps & [(Hna & Hcc & _)|(_ & _ & _ & _ & Hd)]); [|discriminate].
+  - apply orep_arr in Hr as (a & off & len & cap & cells & fps & -> & Hn & Hl & Hreps & [(Hna & Hcc & _)|(_ & _ & _ & Hd)]); [|discriminate].
     apply clean_arr. pose proof (Hc _ _ Hn Hna) as Hoc. simpl in Hoc.
     assert (Hsub : forall x, In x (firstn len (skipn off cells)) -> x <> HEmpty).
     { intros x Hx ->. apply Hoc. eapply In_skipn. eapply In_firstn. eauto. }
@@ -457,7 +457,7 @@ Proof.
   - (* arrays *)
     pose proof Hr as Hr0.
     apply orep_arr in Hr as (a & off & len & cap & cells & fps & -> & Hn & Hl & Hreps & Hcase).
-    destruct Hcase as [(Hna & Hcc & ->) | (Hp & -> & -> & Hj & ->)].
+    destruct Hcase as [(Hna & Hcc & ->) | (Hp & -> & -> & ->)].
     + (* not owned: returned as it is; it holds no marker *)
       assert (allocated (Some ps) (HArr a off len cap) = false).
       { destruct (allocated (Some ps) (HArr a off len cap)) eqn:E; auto. apply allocated_arr in E. exfalso. apply Hna. left. eauto. }
@@ -503,7 +503,7 @@ Proof.
            ++ right. split; auto. split; auto. split.
               { rewrite !app_length, repeat_length. unfold N. rewrite skipn_length.
                 rewrite <- (firstn_skipn len cells) at 1. fold E N. rewrite app_length. unfold N. rewrite skipn_length. lia. }
-              split; auto. rewrite skipn_app_exact by auto. apply Forall_app. split; auto. apply Forall_repeat.
+              auto.
         -- apply post_intro; auto.
            ++ unfold hF'. rewrite set_list_length. auto.
            ++ intros a0 Ha0 Hnin. rewrite Hother. 2:{ intro Heq; subst a0. apply Hnin. left. auto. }
